@@ -78,6 +78,9 @@ def isOk {α} (m : GoM α) : GoM Bool :=
   | .error (.err _) => .ok false
   | .error other => .error other
 
+/-- `errs = errors.Join(errs, e)` with a non-nil `e`: the accumulated error is non-nil afterwards (the model keeps the first) -/
+def joinErr (errs : Option GoErr) (e : GoErr) : Option GoErr := some (errs.getD e)
+
 /-- `strings.Split(s, sep)` for a non-empty separator: the pieces of `s` between the (non-overlapping, leftmost) occurrences
 of `sep`; never empty (`"" ↦ [""]`). `fuel` bounds the scan (the callers pass `s.length + 1`). -/
 def splitOnAux (sep : List UInt8) : Nat → List UInt8 → List UInt8 → List (List UInt8)
